@@ -25,6 +25,23 @@ def hx(v):
     return ("-" if v < 0 else "") + "%x" % abs(v)
 
 
+def cap(cv, op):
+    """bits of |k| a multiplication routine can process (input classification only; EdSpec has its own definition):
+    no routine reduces k modulo n; w-NAF / window recodings use buffers of RLC_FP_BITS + 1 entries, ed_mul_fix_basic a
+    table of bits(n) entries, the combs RLC_DEPTH * ceil(bits(n) / RLC_DEPTH) bit positions; binary NAF, ladder,
+    single digit and sim_lot are unlimited"""
+    if op in ("ed_mul_basic", "ed_mul_monty", "ed_mul_dig", "ed_mul_sim_lot"):
+        return 1 << 30
+    if op == "ed_mul_fix_basic":
+        return cv.n.bit_length()
+    comb = cv.dep * -(-cv.n.bit_length() // cv.dep)
+    if op in ("ed_mul_fix_combs", "ed_mul_fix_combd", "ed_mul_fix", "ed_mul_gen"):
+        return comb
+    if op == "ed_mul_sim_gen":
+        return min(comb, cv.fpb)
+    return cv.fpb
+
+
 def op_sys(op, add):
     if op.endswith("_basic") and not op.startswith("ed_mul"):
         return BASIC
@@ -170,7 +187,7 @@ def curve_from_probe(e):
 # --------------------------------------------------------------------------
 # tiny worlds: complete twisted Edwards curves over 8-bit primes, order h*n, n prime
 # --------------------------------------------------------------------------
-def tiny_world(p, a, d, add, want_h=8, fpb=8, bnbits=32, wd=4, dep=4, dgb=8):
+def tiny_world(p, a, d, add, want_h=8, fpb=8, bnbits=32, wd=5, dep=4, dgb=8):
     a %= p
     d %= p
     if a == 0 or d == 0 or a == d:
@@ -191,6 +208,14 @@ def tiny_world(p, a, d, add, want_h=8, fpb=8, bnbits=32, wd=4, dep=4, dgb=8):
     n = order // want_h
     if not _is_prime(n) or n <= want_h:
         return None
+    # no fixed-base comb table entry sum_{j in S} 2^(l*j) G may be the neutral element (impossible for cryptographic
+    # orders; ed_mul_pre_combs / _combd cannot normalise it, see C17-normsim-neutral)
+    l = -(-n.bit_length() // dep)
+    e2 = -(-l // 2)
+    for S in range(1, 1 << dep):
+        c = sum(1 << (l * j) for j in range(dep) if (S >> j) & 1)
+        if c % n == 0 or (c << e2) % n == 0:
+            return None
     cv = EdCurve("", p, a, d, None, n, want_h, add, fpb, bnbits, wd, dep, dgb)
     g = None
     for P in pts:
@@ -395,19 +420,23 @@ def query_cases(cv, rng, pairs, pts, noff):
     return out
 
 
-def norm_sim_cases(cv, rng, pts, count):
+def norm_sim_cases(cv, rng, pts, count, nprobe=1):
+    """ed_norm_sim.  The neutral element is handled only in place and with Z = 1 (see C17-normsim-neutral): the random
+    lists contain it in that form, `nprobe` cases probe the other forms."""
     out = []
     for _ in range(count):
         k = rng.randint(1, 6)
-        ps = [rng.choice(pts) for _ in range(k)]
-        if rng.random() < 0.4:
-            ps[rng.randrange(k)] = (0, 1)
-        out.append("ed_norm_sim %s %d %d %s" % (cv.spec, rng.choice([0, 1]), k,
-                                               " ".join(tok(cv, P, PROJC, rng, force=rng.choice("aPEppee")) for P in ps)))
-    # the neutral element in non-normalised form
-    out.append("ed_norm_sim %s 1 2 0,1/p%x %s" % (cv.spec, zs(cv, rng), tok(cv, pts[1], PROJC, rng, force="p")))
-    out.append("ed_norm_sim %s 0 2 %s inf" % (cv.spec, tok(cv, pts[1], PROJC, rng, force="p")))
-    return out
+        al = rng.choice([0, 1])
+        ps = [tok(cv, rng.choice(pts), PROJC, rng, force=rng.choice("aPEppee")) for _ in range(k)]
+        if al == 1 and rng.random() < 0.4:
+            ps[rng.randrange(k)] = "inf"
+        ps = [t if t.split("/")[0] != "0,1" else "inf" for t in ps]
+        if al == 0 and "inf" in ps:
+            al = 1
+        out.append("ed_norm_sim %s %d %d %s" % (cv.spec, al, k, " ".join(ps)))
+    probes = ["ed_norm_sim %s 1 2 0,1/p%x %s" % (cv.spec, zs(cv, rng), tok(cv, pts[1], PROJC, rng, force="p")),
+              "ed_norm_sim %s 0 2 %s inf" % (cv.spec, tok(cv, pts[1], PROJC, rng, force="p"))]
+    return out + probes[:nprobe]
 
 
 def witness_cases(cv, sub_pts):
